@@ -1337,6 +1337,23 @@ where
     spatial_index: Option<HashGridIndex<K::Scalar, D>>,
 }
 
+// Cache invalidation shared with the crate-internal Edit API (no scalar bounds beyond the struct's).
+impl<K, U, V, const D: usize> DelaunayTriangulation<K, U, V, D>
+where
+    K: Kernel<D>,
+    U: DataType,
+    V: DataType,
+{
+    /// Mutable access to the underlying triangulation that, like the public
+    /// [`as_triangulation_mut`](Self::as_triangulation_mut), drops the performance caches
+    /// (locate hint and duplicate-detection spatial index) that a direct edit can invalidate.
+    pub(crate) fn tri_mut_invalidating_caches(&mut self) -> &mut Triangulation<K, U, V, D> {
+        self.insertion_state.last_inserted_cell = None;
+        self.spatial_index = None;
+        &mut self.tri
+    }
+}
+
 // Most common case: f64 with FastKernel, no vertex or cell data
 impl<const D: usize> DelaunayTriangulation<FastKernel<f64>, (), (), D> {
     /// Create a Delaunay triangulation from vertices with no data (most common case).
